@@ -9,7 +9,8 @@
 (* states each operator's defining equation over the integers.  One        *)
 (* bounded-model-checking step of length 0 therefore proves the equations  *)
 (* for all 2^128 pairs (shifts and truncation: for every count / width,    *)
-(* instantiated one by one, so that every product has a constant factor).  *)
+(* instantiated one by one in AP_Word64At, so that every product has a     *)
+(* constant factor).                                                       *)
 (*   apalache-mc check --length=0 --inv=Inv AP_Word64.tla                  *)
 (* Multiplication and division (recursive, non-linear) stay with the       *)
 (* vectors of MC_Word64.                                                   *)
@@ -96,6 +97,6 @@ Small ==
      /\ S(WFromInt(-k)) = -k
 
 Inv == Representation /\ Additive /\ Order /\ ShiftCounts /\ Small
-InvShifts == Shifts
-InvTrunc == Truncation /\ Bits
+\* Shifts, Truncation and Bits quantify over the count inside one formula; Apalache gives no answer within 25 minutes.
+\* They are established instance by instance instead (AP_Word64At, one literal count per run, 6-20 s each).
 =============================================================================
